@@ -25,6 +25,11 @@ type Gen[T any] interface{ G(T) }
 
 type Inst Gen[int]
 
+// named types instantiating generic interfaces of ANOTHER package (one and two type arguments)
+type RemoteInst q.QG[int]
+
+type RemoteInst2 q.QG2[string, bool]
+
 type St struct{ F int }
 
 type Fn func()
@@ -82,9 +87,9 @@ func (St) method() {
 }
 `
 
-const c07q = "package q\n\ntype Q interface{ QM() }\n"
+const c07q = "package q\n\ntype Q interface{ QM() }\n\ntype QG[T any] interface{ QGM(T) T }\n\ntype QG2[A, B any] interface{ Two(A) B }\n"
 
-var c07ifaces = []string{"Exp", "Gen", "Inst", "unexp"}
+var c07ifaces = []string{"Exp", "Gen", "Inst", "RemoteInst", "RemoteInst2", "unexp"}
 
 type c07scn struct {
 	id      string
@@ -251,7 +256,7 @@ func C07(c *core.Ctx) error {
 			pk := core.M{"interfaces": core.M{"Exp": ic}}
 			if all {
 				pk["config"] = core.M{"all": true}
-				for _, o := range []string{"Gen", "Inst", "unexp"} {
+				for _, o := range []string{"Gen", "Inst", "RemoteInst", "RemoteInst2", "unexp"} {
 					exp = append(exp, fmt.Sprintf("%s|%s|%s", P, o, mockName(o)))
 				}
 			}
@@ -268,7 +273,7 @@ func C07(c *core.Ctx) error {
 		root2["all"] = true
 		root2["packages"] = core.M{P: nil}
 		scns = append(scns, c07scn{id: "null package body, all at root", cfg: root2, files: map[string]string{"p/p.go": c07src, "q/q.go": c07q},
-			expect: []string{P + "|Exp|MockExp", P + "|Gen|MockGen", P + "|Inst|MockInst", P + "|unexp|mockunexp"}})
+			expect: []string{P + "|Exp|MockExp", P + "|Gen|MockGen", P + "|Inst|MockInst", P + "|RemoteInst2|MockRemoteInst2", P + "|RemoteInst|MockRemoteInst", P + "|unexp|mockunexp"}})
 	}
 	// function-local types are never mocked (nor do they disturb the package-level ones)
 	for _, mode := range []string{"all", "listed", "regex"} {
@@ -289,6 +294,7 @@ func C07(c *core.Ctx) error {
 			exp = []string{P + "|Exp|MockExp"}
 		}
 		root["packages"] = core.M{P: pk}
+		sort.Strings(exp)
 		scns = append(scns, c07scn{id: "function-local types, " + mode, cfg: root,
 			files: map[string]string{"p/p.go": c07src, "p/local.go": c07srcLocal, "q/q.go": c07q}, expect: exp})
 	}
